@@ -405,7 +405,8 @@ PROPS = {
                      'Cqos.C05.c05_share', 'Cqos.C05.c05_full', 'Cqos.C05.wellBehaved_fair', 'Cqos.C05.wellBehaved_rate',
                      'Cqos.C05.sum_strategic_fair', 'Cqos.C05.sum_strategic_rate',
                      'Cqos.C05.sat_initV1', 'Cqos.C05.c05_share_v1', 'Cqos.C05.c05_full_v1', 'Cqos.Facts.ctorsPrio'],
-        'runs': [{'cmd': 'stepper', 'args': ['-family', 'saturated']}],
+        'runs': [{'cmd': 'stepper', 'args': ['-family', 'saturated']},
+                 {'cmd': 'blackbox', 'args': ['-scenario', 'saturated']}],
         'monitor_prefix': ['C05'],
         'level': 'proof',
         'level_text': ('Lean theorems on the scheduler machine (v2 from New; v1 from New as long as there is no Stop/cancel and no '
@@ -422,14 +423,15 @@ PROPS = {
         'assumptions': ['saturation as a property of the action list (pollEmpty / pollClosed never occur)'],
     },
     'C06': {
-        'lean_targets': ['Cqos.Props.C06', 'Cqos.Props.C16', 'Cqos.Facts.GluePrioV2', 'Cqos.Props.C06d', 'Cqos.Props.C06i', 'Cqos.Props.C06e', 'Cqos.Props.C06f'],
+        'lean_targets': ['Cqos.Props.C06', 'Cqos.Props.C16', 'Cqos.Facts.GluePrioV2', 'Cqos.Props.C06d', 'Cqos.Props.C06i', 'Cqos.Props.C06e', 'Cqos.Props.C06f', 'Cqos.Props.C06s'],
         'facts': True,
         'theorems': ['Cqos.C06.c06_calc_idle', 'Cqos.C06.calc_wait_busy', 'Cqos.C06.w_step', 'Cqos.C06.c06_never_waits_idle',
                      'Cqos.C06.c06_head_served', 'Cqos.C06.c06_recalc_alone', 'Cqos.C06.c06_v1_zero_share_starves',
                      'Cqos.C15.c15_drain_progress', 'Cqos.C16.c16_exit_bound', 'Cqos.Facts.gluePrioV2', 'Cqos.C06.poll_enabled', 'Cqos.C06.c06_no_deadlock',
                      'Cqos.C06.skip_one', 'Cqos.C06.c06_phase1_delivers', 'Cqos.C06.v2_inputs_own_chan', 'Cqos.C06.c06_idle_delivers',
                      'Cqos.C06.noerr_step', 'Cqos.C06.sched_step', 'Cqos.C06.terminal', 'Cqos.C06.c06_deliverable',
-                     'Cqos.C06.sumRule_fair', 'Cqos.C06.sumRule_rate', 'Cqos.C06.step_effect', 'Cqos.C06.c06_every_item'],
+                     'Cqos.C06.sumRule_fair', 'Cqos.C06.sumRule_rate', 'Cqos.C06.step_effect', 'Cqos.C06.c06_every_item',
+                     'Cqos.C06.pacc_sstep', 'Cqos.C06.lift_run', 'Cqos.C06.c06_simple_every_item_handled'],
         'runs': [{'cmd': 'stepper', 'args': ['-family', 'single']}, {'cmd': 'stepper', 'args': ['-family', 'mixed']},
                  {'cmd': 'stepper', 'args': ['-family', 'terminate']},
                  {'cmd': 'blackbox', 'args': ['-scenario', 'alone']}],
@@ -447,7 +449,9 @@ PROPS = {
                        'discipline with a divider obeying the sum rule (Fair and Rate do: sumRule_fair, sumRule_rate), an item waiting at the '
                        'head of a registered undrained input is delivered by some continuation made only of handlers releasing what they hold '
                        'and of the discipline\'s own steps (scheduler + lexicographic measure: queued items, occupied handlers, position in the round); '
-                       'the same for an item at ANY position of the queue (c06_every_item, by induction on the items ahead, using the C02 history invariant). The '
+                       'the same for an item at ANY position of the queue (c06_every_item, by induction on the items ahead, using the C02 history invariant); '
+                       'for the simplified v2 discipline, where the handlers are part of the system, every waiting item gets Handle called for it by a '
+                       'continuation of own, take and finish steps only (c06_simple_every_item_handled). The '
                        'stepper reports blocked-with-nothing-in-flight and single-active-priority under-occupation exactly (no timing)'),
         'level_note': ('partial: c06_deliverable / c06_idle_delivers show that delivery stays reachable from every reachable state by releases and the '
                        'discipline\'s own steps alone; that these steps are actually taken needs fairness of the Go scheduler and handlers that '
